@@ -231,7 +231,11 @@ func TestReplay(t *testing.T) {
 	st.NonTrivial("replay:" + path)
 	st.NonTrivial("replay2:" + path)
 	st.Sample(path, map[string]any{"replayed": path, "kind": rf.Kind})
-	if err := r(rf.Case); err != nil {
+	err = r(rf.Case)
+	for i, n := 1, getenvInt("VERIF_REPLAY_REPEAT", 1); i < n && err == nil; i++ {
+		err = r(rf.Case) // schedule-dependent cases are re-run several times
+	}
+	if err != nil {
 		fmt.Printf("VIOLATION property=%s replay=%s\n", rf.Property, path)
 		fmt.Printf("  detail: %s\n", err)
 		t.Fatalf("replay reproduces: %v", err)
